@@ -73,11 +73,12 @@ struct Long { std::string s, sep; size_t planted = 0, near_misses = 0; bool alig
 static const uint16_t BLOCKS[] = {4096, 16384, 16386, 256, 1024, 64, 8192, 32, 4098};
 
 // structural choices; the 64-bit content seed is read last
-inline LongPlan plan_long(verif::Reader &r) {
+// huge16 = how many of 16 size selectors give the 16..48 KB class (taken from the <= 300 byte class)
+inline LongPlan plan_long(verif::Reader &r, unsigned huge16 = 1) {
     LongPlan p;
     static const uint16_t blocks[] = {256, 512, 1024, 2048, 4096, 8192, 16384};
     static const uint16_t huge[] = {32768, 49152, 32772, 20480, 40960, 49158};
-    switch (r.range(0, 15)) {
+    switch (r.range(0, 15) + (huge16 ? huge16 - 1 : 0)) {
         case 0: case 1: case 2: case 3: case 4: case 5: case 6: case 7: p.target = (size_t)r.range(17, 300); break;
         case 8: case 9: case 10: p.target = (size_t)r.range(300, 1500); break;
         case 11: case 12: p.target = (size_t)r.pick(blocks) + (size_t)r.range(0, 2) - 1; break;     // block size -1 / exact / +1
